@@ -346,15 +346,6 @@ func init() {
 			return true
 		})
 	}
-	conc("strings.HasSuffix", func(a []interface{}) []interface{} {
-		return []interface{}{strings.HasSuffix(a[0].(string), a[1].(string))}
-	})
-	conc("strings.HasPrefix", func(a []interface{}) []interface{} {
-		return []interface{}{strings.HasPrefix(a[0].(string), a[1].(string))}
-	})
-	conc("strings.Contains", func(a []interface{}) []interface{} {
-		return []interface{}{strings.Contains(a[0].(string), a[1].(string))}
-	})
 	conc("strings.ToUpper", func(a []interface{}) []interface{} { return []interface{}{strings.ToUpper(a[0].(string))} })
 	conc("strings.ToLower", func(a []interface{}) []interface{} { return []interface{}{strings.ToLower(a[0].(string))} })
 	conc("strings.TrimSpace", func(a []interface{}) []interface{} { return []interface{}{strings.TrimSpace(a[0].(string))} })
